@@ -156,3 +156,16 @@ func VerifC15Bits() {
 	vNote("bitlen", x.BitLen())
 	vReach("end")
 }
+
+// VerifC15MulAsm: natively Element.Mul / FromMont dispatch to the assembly routines; used to replay counterexamples found
+// by interpreting the .s files (symbolically this harness is not executed).
+func VerifC15MulAsm() {
+	x, y := c15elem("x"), c15elem("y")
+	var z Element
+	z.Mul(&x, &y)
+	vNote("z", z)
+	f := x
+	f.FromMont()
+	vNote("fm", f)
+	vReach("end")
+}
